@@ -153,20 +153,35 @@ template <typename R> using E10 = f::or_filter<f::and_filter<S0<R>, S1<R>>, S2<R
 template <typename R> using E11 = f::and_filter<f::not_filter<f::not_filter<S0<R>>>, S1<R>>;
 template <typename R> using E12 = f::null_filter<R>;
 template <typename R> using E13 = f::not_filter<f::null_filter<R>>;
+// a filter that looks at the tag of the record (a muted component): the decision of the runtime filter is a function of the
+// whole record as the statement wrote it, not only of its severity
+template <typename R>
+class TagMute
+{
+public:
+    typedef R record_type;
+    bool filter(R& r) const
+    {
+        return r.tag() != "tg";
+    }
+};
+template <typename R> using E14 = TagMute<R>;
+template <typename R> using E15 = f::and_filter<S0<R>, TagMute<R>>;
+template <typename R> using E16 = f::or_filter<f::not_filter<TagMute<R>>, S0<R>>;
 
-const int NEXPR = 14;
+const int NEXPR = 17;
 inline const char* expr_name(int e)
 {
-    static const char* n[] = { "S0", "!S0", "!!S0", "S0&S1", "S0|S1", "S0&!S1", "!S0|S1", "!(S0&S1)", "!(S0|S1)", "(S0|S1)&S2", "(S0&S1)|S2", "!(!S0)&S1", "null", "!null" };
+    static const char* n[] = { "S0", "!S0", "!!S0", "S0&S1", "S0|S1", "S0&!S1", "!S0|S1", "!(S0&S1)", "!(S0|S1)", "(S0|S1)&S2", "(S0&S1)|S2", "!(!S0)&S1", "null", "!null", "untagged", "S0&untagged", "tagged|S0" };
     return n[e];
 }
 inline int expr_filters(int e)
 {
-    static const int n[] = { 1, 1, 1, 2, 2, 2, 2, 2, 2, 3, 3, 2, 0, 0 };
+    static const int n[] = { 1, 1, 1, 2, 2, 2, 2, 2, 2, 3, 3, 2, 0, 0, 0, 1, 1 };
     return n[e];
 }
 // boring interpreter of the expression
-inline bool expr_eval(int e, int s, const int t[3])
+inline bool expr_eval(int e, int s, const int t[3], bool tagged)
 {
     bool a = s >= t[0], b = s >= t[1], c = s >= t[2];
     switch (e)
@@ -184,7 +199,10 @@ inline bool expr_eval(int e, int s, const int t[3])
     case 10: return (a && b) || c;
     case 11: return a && b;
     case 12: return true;
-    default: return false;
+    case 13: return false;
+    case 14: return !tagged;
+    case 15: return a && !tagged;
+    default: return tagged || a;
     }
 }
 inline void set_thresholds(const int t[3])
@@ -425,7 +443,10 @@ inline void run_stmt_expr(int e, const Stmt& st)
     case 10: run_stmt<Logger<E10>>(st); break;
     case 11: run_stmt<Logger<E11>>(st); break;
     case 12: run_stmt<Logger<E12>>(st); break;
-    default: run_stmt<Logger<E13>>(st); break;
+    case 13: run_stmt<Logger<E13>>(st); break;
+    case 14: run_stmt<Logger<E14>>(st); break;
+    case 15: run_stmt<Logger<E15>>(st); break;
+    default: run_stmt<Logger<E16>>(st); break;
     }
 }
 
@@ -479,9 +500,9 @@ void overlapping(const Stmt& a, const Stmt& b)
 // ---------------------------------------------------------------------------------------------
 // reference interpreter
 
-inline bool enabled(int e, const int t[3], int sev)
+inline bool enabled(int e, const int t[3], int sev, bool tagged)
 {
-    return sev >= VP_MIN && expr_eval(e, sev, t);
+    return sev >= VP_MIN && expr_eval(e, sev, t, tagged);
 }
 
 // message text and the events produced while the items are streamed
@@ -557,7 +578,7 @@ inline std::vector<Event> ref_program(int e, const int t[3], const std::vector<S
     std::vector<Event> ev;
     for (auto& st : prog)
     {
-        if (!enabled(e, t, st.sev))
+        if (!enabled(e, t, st.sev, st.tagged))
             continue;
         std::string msg;
         ref_items(e, t, st, ev, msg);
@@ -769,7 +790,7 @@ inline std::vector<Finding> run_case(const Case& c)
         default: run_overlap_expr<5>(c.expr, a, b); break;
         }
         // reference: items interleaved by position, then record of b (destroyed first), then record of a
-        if (enabled(c.expr, c.t, a.sev))
+        if (enabled(c.expr, c.t, a.sev, a.tagged))
         {
             std::vector<Event> ea, eb;
             std::string ma, mb;
